@@ -66,17 +66,58 @@ PROFILE = {'isi': 'isi_profile', 'spike': 'spike_profile', 'sync': 'spike_sync_p
 # executing calls
 # ----------------------------------------------------------------------
 def make_trains(spk, specs):
-    return [spk.SpikeTrain(np.array(sp['s'], dtype=float), [sp['e'][0], sp['e'][1]]) for sp in specs]
+    """the caller constructs its trains the various ways the constructor documents: spike times as
+    array / list / tuple (integral times also as Python ints), edges as list / tuple / array"""
+    out = []
+    for sp in specs:
+        style = sp.get('c', 'arr')
+        times = [float(t) for t in sp['s']]
+        if style == 'list':
+            arg = list(times)
+        elif style == 'tuple':
+            arg = tuple(times)
+        elif style == 'intlist' and all(t == int(t) for t in times):
+            arg = [int(t) for t in times]
+        else:
+            arg = np.array(times, dtype=float)
+        e = [sp['e'][0], sp['e'][1]]
+        es = sp.get('ce', 'list')
+        edges = tuple(e) if es == 'tuple' else np.array(e) if es == 'arr' else e
+        out.append(spk.SpikeTrain(arg, edges))
+    return out
 
 
 def dec_kw(kw):
+    """keyword values in the Python types a caller may legitimately use (recorded under '__ty')"""
     out = dict(kw)
+    ty = out.pop('__ty', None) or {}
+    for key, t in ty.items():
+        if key not in out or out[key] is None or isinstance(out[key], (str, bool)):
+            continue
+        v = out[key]
+        if key == 'interval':
+            if t == 'tuple':
+                out[key] = tuple(tuple(p) for p in v) if isinstance(v[0], (list, tuple)) else tuple(v)
+            elif t == 'listoftuples' and isinstance(v[0], (list, tuple)):
+                out[key] = [tuple(p) for p in v]
+        elif key in ('MRTS', 'max_tau', 'threshold'):
+            if t == 'int' and float(v) == int(v):
+                out[key] = int(v)
+            elif t == 'npfloat':
+                out[key] = np.float64(v)
+            elif t == 'np0d':
+                out[key] = np.array(float(v))
     return out
 
 
 def invoke(spk, trains, fn, form, sel, kw):
     f = getattr(spk, fn)
+    ity = (kw.get('__ty') or {}).get('indices')
     kw = dec_kw(kw)
+    if ity:
+        kw['__ity'] = ity
+    if form != 'idx':
+        kw.pop('__ity', None)
     if form == 'pair':
         return f(trains[sel[0]], trains[sel[1]], **kw)
     if form == 'list':
@@ -84,7 +125,9 @@ def invoke(spk, trains, fn, form, sel, kw):
     if form == 'star':
         return f(*[trains[i] for i in sel], **kw)
     if form == 'idx':
-        return f(trains, indices=list(sel), **kw)
+        ity = (kw.pop('__ity', None) if '__ity' in kw else None)
+        idx = list(sel)
+        return f(trains, indices=(tuple(idx) if ity == 'tuple' else np.array(idx) if ity == 'arr' else idx), **kw)
     raise ValueError(form)
 
 
@@ -357,7 +400,8 @@ def generate(prop, rng, tier):
             gen.gen_pool(rng, wp, nmax=nmax, nspk=nspk)
     else:
         pool = gen.gen_pool(rng, wp, nmax=nmax, nspk=nspk)
-    specs = [{'s': s, 'e': list(e)} for s in pool]
+    specs = [{'s': s, 'e': list(e), 'c': rng.choice(['arr', 'arr', 'list', 'tuple', 'intlist']),
+              'ce': rng.choice(['list', 'list', 'tuple', 'arr'])} for s in pool]
 
     if prop == 'C05':
         for _ in range(nops):
